@@ -42,6 +42,8 @@ def run(chk):
     chk.floor('C18.R1', 'non-raising paths of write_board_result', len(paths), 1)
     f = Folder(repo, allow_loops=True, max_steps=200000)
     pat, func, sep_call, sep_if, ps_fn, pci = separator_pattern(repo, 'C18.R2')
+    from .pbnio import check_line_source
+    check_line_source(chk, 'C18.R3', repo)
     fm = re.fullmatch if func == 're.fullmatch' else re.match
     tag_values = {}
     for p in paths:
